@@ -70,17 +70,38 @@ def l2_margin_e2(tier='quick', case=None, seed=0):
     return out
 
 
+_SP = [0, 10, 60, 200]
+_LP = [0, 5, 100]
+_PP = [0, 49, 50, 51, 111, 261, 400]
+
+
+def _l2b_span_growth(s0: int, l0: int, s1: int, l1: int, s2: int, l2: int, p0: int) -> bool:
+    """
+    pre: 0 <= s0 <= 3 and 0 <= s1 <= 3 and 0 <= s2 <= 3
+    pre: 0 <= l0 <= 2 and 0 <= l1 <= 2 and -1 <= l2 <= 2
+    pre: 0 <= p0 <= 6
+    post: _
+    """
+    from vlib.sym import pick
+    spans = [(pick(_SP, s0), pick(_SP, s0) + pick(_LP, l0)), (pick(_SP, s1), pick(_SP, s1) + pick(_LP, l1))]
+    if l2 >= 0:
+        spans.append((pick(_SP, s2), pick(_SP, s2) + pick(_LP, l2)))
+    return S.span_growth_clause(Molecule, spans, 100, (pick(_PP, p0),)) is None
+
+
 _T = {'quick': 120, 'thorough': 900}
 LEMMAS = [
     dict(name='L1_eject_step', fn='_l1_eject', engine='E1', timeout=_T, replay='replay.C07:replay_eject',
          cases={'quick': [dict(id='n%d_p%d' % (n, p), pre=['n == %d' % n, 'pooling == %d' % p]) for n in (2, 3, 4) for p in (0, 1)],
                 'thorough': [dict(id='n%d_p%d' % (n, p), pre=['n == %d' % n, 'pooling == %d' % p]) for n in (2, 3, 4, 5) for p in (0, 1)]}),
+    dict(name='L2b_window_tracks_span', fn='_l2b_span_growth', engine='E1', timeout=_T, replay='replay.C07:replay_span',
+         cases={'quick': [dict(id='2frag', pre=['l2 == -1', 's2 == 0'])], 'thorough': [dict(id='2frag', pre=['l2 == -1', 's2 == 0'])] + [dict(id='3frag_s%d' % i, pre=['l2 >= 0', 's0 == %d' % i]) for i in range(4)]}),
     dict(name='L2_margin', run='l2_margin_e2', engine='E2', timeout=_T, replay='replay.C07:replay_margin'),
 ]
 
 PROPERTY = dict(
     functions=['singlecellmultiomics.molecule.iterator.MoleculeIterator.__iter__ (ejection block, both pooling methods)',
-               'singlecellmultiomics.molecule.molecule.Molecule.can_be_yielded'],
+               'singlecellmultiomics.molecule.molecule.Molecule.can_be_yielded / _add_fragment (span bookkeeping)'],
     bounds={'quick': dict(buffered_molecules='2..4', yieldable_subset='arbitrary (symbolic bool per molecule)', hash_groups='<=2',
                           check_eject_every='None, 0..5', margin='unbounded integer coordinates'),
             'thorough': dict(buffered_molecules='2..5')},
